@@ -639,6 +639,18 @@ func (f *Frame) builtin(b *ssa.Builtin, cc *ssa.CallCommon, in ssa.Instruction, 
 			f.havocElemHeaps(st.Elem(), in)
 		}
 		v := tr.freshVal(resType, "copy")
+		if args[0].K == VSlice {
+			var sl string
+			switch args[1].K {
+			case VSlice:
+				sl = args[1].Len
+			case VStr:
+				sl = "(str.len " + args[1].T + ")"
+			}
+			if sl != "" {
+				tr.fact(sEq(v.T, sIte("(<= "+args[0].Len+" "+sl+")", args[0].Len, sl)))
+			}
+		}
 		return v
 	case "delete":
 		f.mapDelete(cc, args)
